@@ -17,7 +17,7 @@ pub fn meta() -> Meta {
     Meta {
         id: "C02",
         level: "exploration",
-        rule: "metamorphic relation on the real builder, enumerated completely per input family: F1 every record over {A,C,G,T,N} up to length 7 (k=5) with its reverse complement, every case mask (length<=6) and every line width; F2 the restart family L+N+R (k-mers on both sides of an N) against its reverse complement; F3 for all 30 k a repeat-free string of k+3 letters with N at every position: reverse complement, lower/alternating case, line widths 1,2,k,len-1, gzip (with and without .gz extension), CRLF line ends, header descriptions + blank lines + no final newline, an empty record in front, and the same records as FASTQ built with min-count 1 and no quality rule; F4 every ordered triple from a record pool with every subset reverse-complemented and every permutation; F5 every permutation of 3 and 4 samples through build_and_merge (columns permute with the names), and reversed/rotated orders of 72 samples through `ska build --threads 8` (recursive parallel merge); F6 paired FASTQ read sets under the read filter (min-count 2, each quality rule, one base of quality 19/20 at every position of one read, k in {5,33}): reverse-complementing any read with its qualities, reversing the read order, swapping the files, moving a read between the files. Non-trivial = the original input has at least one split k-mer and the transformed file differs from the original.".into(),
+        rule: "metamorphic relation on the real builder, enumerated completely per input family: F1 every record over {A,C,G,T,N} up to length 7 (k=5) with its reverse complement, every case mask (length<=6) and every line width; F2 the restart family L+N+R (k-mers on both sides of an N) against its reverse complement; F3 for all 30 k a repeat-free string of k+3 letters with N at every position: reverse complement, lower/alternating case, line widths 1,2,k,len-1, gzip (with and without .gz extension), CRLF line ends, header descriptions + blank lines + no final newline, an empty record in front, and the same records as FASTQ built with min-count 1 and no quality rule; F4 every ordered triple from a record pool with every subset reverse-complemented and every permutation; F4b four records with the same arms and every sequence of four middle bases (repeats included), sorted / reversed / reverse-complemented; F5 every permutation of 3 and 4 samples through build_and_merge (columns permute with the names), and reversed/rotated orders of 72 samples through `ska build --threads 8` (recursive parallel merge); F6 paired FASTQ read sets under the read filter (min-count 2, each quality rule, one base of quality 19/20 at every position of one read, k in {5,33}): reverse-complementing any read with its qualities, reversing the read order, swapping the files, moving a read between the files. Non-trivial = the original input has at least one split k-mer and the transformed file differs from the original.".into(),
         assumptions: vec!["a file without split k-mers may be refused; refusal is treated as the empty dictionary on both sides".into()],
         exhaustive_when_uncapped: true,
     }
@@ -324,6 +324,46 @@ pub fn run(ctx: &Ctx, rep: &mut Report) {
         if !capped {
             rep.completed.push("F4 record triples".into());
         }
+    }
+
+    // F4b four copies of the same arms: every sequence of four middle bases (repeats included), as four records in
+    // that order, against the same records sorted; both strand modes, each record also reverse-complemented
+    if !capped {
+        for k in [5usize, 31, 33] {
+            let h = (k - 1) / 2;
+            let arms = repeat_free(k + 2, k, 0, ctx.seed + 66);
+            strings(b"ACGT", 4, |mids| {
+                idx += 1;
+                if !ctx.mine(idx) {
+                    return true;
+                }
+                let rec = |m: u8, i: usize| -> Vec<u8> {
+                    let mut r = arms[..k].to_vec();
+                    r[h] = m;
+                    // a different trailing letter per copy keeps the records distinct
+                    r.push(b"ACGT"[i % 4]);
+                    r
+                };
+                let recs: Vec<Vec<u8>> = mids.iter().enumerate().map(|(i, m)| rec(*m, i)).collect();
+                let mut order: Vec<usize> = (0..4).collect();
+                order.sort_by_key(|i| mids[*i]);
+                let sorted: Vec<Vec<u8>> = order.iter().map(|i| recs[*i].clone()).collect();
+                let reversed: Vec<Vec<u8>> = recs.iter().rev().cloned().collect();
+                for rc in [true, false] {
+                    let mut c = Chk { rep, k, rc, wide: k > 31 };
+                    let orig = c.base(&recs);
+                    c.relate_records(&orig, &recs, "permute records (sorted by middle base)", &sorted);
+                    c.relate_records(&orig, &recs, "permute records (reversed)", &reversed);
+                    if rc {
+                        c.relate_records(&orig, &recs, "reverse-complement every record", &recs.iter().map(|r| rc_str_n(r)).collect::<Vec<_>>());
+                        c.relate_records(&orig, &recs, "reverse-complement the last record", &[recs[..3].to_vec(), vec![rc_str_n(&recs[3])]].concat());
+                    }
+                }
+                rep.corner("four_copies_of_the_same_arms");
+                true
+            });
+        }
+        rep.completed.push("F4b four copies".into());
     }
 
     // F6 reads: the relations under the read filter (min-count 2, each quality rule, threshold 20): one base of
